@@ -108,7 +108,7 @@ def sample(t, k, cfg):
     if isinstance(t, TEnum):
         return [0x0102, 0x7001, 0][k % 3]
     if t is FLOATS["float"]:
-        return [0.0, -0.0, 1.5][k % 3]
+        return [0.1, -0.0, 1.5][k % 3]  # 0.1 is not representable: the member must show what its bytes hold
     if isinstance(t, TPtr):
         return [0x11, (1 << (8 * cfg.ptr.size)) - 1, 0][k % 3]
     if isinstance(t, TArr):
